@@ -437,6 +437,11 @@ func upstreamProcsForProc(proc WorkflowProcess) map[string]WorkflowProcess {
 	}
 	for _, pip := range proc.InParamPorts() {
 		for _, rpp := range pip.RemotePorts {
+			if rpp.Process() == proc {
+				// Values fed with FromStr() and friends come from a feeder port
+				// that belongs to the process itself: nothing upstream of it
+				continue
+			}
 			procs[rpp.Process().Name()] = rpp.Process()
 			mergeWFMaps(procs, upstreamProcsForProc(rpp.Process()))
 		}
